@@ -3,17 +3,21 @@
    Model: Model/LinkedBuffer.v (allocator, slices, writer ops, done/flush, moveTo, reader ops);
    proofs: Proofs/LinkedBufferProofs.v.  Specification: the byte queue {pw; infl; av}.
 
-   STATUS
+   STATUS (after the fix round: Discard and Reserve guard size <= 0 like ReadBytes/Peek already did)
    * C06_full (all size-class configurations, all op sequences of the whole op set incl. slots
-     pre-held by others, op by op the byte queue's outputs, no panic) is FALSE of the faithful model:
-     C06_refuted (Discard(0) on an empty buffer) and C06_refuted_reserve0 (Reserve(0) with shm
-     exhausted) — both nil dereferences are reproduced on the real code by the harness.
+     pre-held by others, op by op the byte queue's outputs, no panic) is stated below as a
+     Definition.  It used to be REFUTED by Discard(0) on an empty buffer and by Reserve(0) with shm
+     exhausted (two nil dereferences, reproduced on the real code, repaired by
+     .work/fixes/C06_discard0.diff and C06_reserve0.diff); the former witnesses are now the regression
+     theorems C06_discard0_total / C06_reserve0_total / C06_size0_regression, and the harness keeps
+     both scenarios as its first two cases.
    * PROVED (for every store, every well-formed receive buffer — any mix of shm / heap slices, any
      slice sizes, any slice boundaries, front slice possibly exhausted — and every sequence):
        C06_partial_reader   ReadBytes, Peek, Discard, ReadByte, ReadString, Read, ReleasePreviousRead,
-                            releasePreviousReadAndReserve with sizes 0 < n <= Len(): exactly the byte
-                            queue's bytes / n / Len, Peek consumes nothing, never a panic, the invariant
-                            "len = |content| and only the front slice may be exhausted" is kept;
+                            releasePreviousReadAndReserve with sizes 0 <= n <= Len() (the former
+                            hypothesis 0 < n is gone): exactly the byte queue's bytes / n / Len, Peek
+                            consumes nothing, never a panic, the invariant "len = |content| and only
+                            the front slice may be exhausted" is kept;
        C06_partial_fallback the same after any number of fallback (socket) deliveries of any sizes
                             into the initial buffer of any configuration;
        C06_fallback_delivery / C06_append_slice: what moveTo's appendBufferSlice needs and gives.
@@ -29,13 +33,19 @@ Open Scope nat_scope.
 
 Definition C06_full : Prop := forall cfg ops, agrees (init_sys cfg) spec0 ops.
 
-Theorem C06_refuted : ~ C06_full.
-Proof. exact pipe_full_refuted. Qed.
-Print Assumptions C06_refuted.
+(* regression of the two former refutations: at size 0 both calls are total no-ops in every state *)
+Theorem C06_discard0_total : forall s, step s (RDiscard 0) = Ok (RN 0, s).
+Proof. exact discard0_ok. Qed.
+Print Assumptions C06_discard0_total.
 
-Theorem C06_refuted_reserve0 : ~ C06_full.
-Proof. exact pipe_full_refuted_reserve0. Qed.
-Print Assumptions C06_refuted_reserve0.
+Theorem C06_reserve0_total : forall s, step s (WReserve []) = Ok (RUnit, s).
+Proof. exact reserve0_ok. Qed.
+Print Assumptions C06_reserve0_total.
+
+Theorem C06_size0_regression :
+  agrees (init_sys [(16, 2)]) spec0 [RDiscard 0; OAlloc 16; WReserve []; RDiscard 0].
+Proof. exact size0_regression. Qed.
+Print Assumptions C06_size0_regression.
 
 Theorem C06_partial_reader : forall ops s sp,
   WF (mem s) (rcv s) -> content (mem s) (rcv s) = av sp -> len (snd s) = Z.of_nat (length (pw sp)) ->
